@@ -19,6 +19,7 @@ func init() {
 		},
 		Assumptions: commonAssumptions,
 		Engines:     "GUARD (origin terms), ROLE (formula shape), BOUND (unsigned subtraction), TABLE",
+		TagMatrix:   [][]string{{"GOARCH=386"}},
 		Run:         runC09,
 	})
 }
